@@ -435,16 +435,6 @@ class Simplifier(pysmt.walkers.DagWalker):
         return self.manager.Times(new_args)
 
     def walk_pow(self, formula: FNode, args: List[FNode], **kwargs) -> FNode:
-        if args[0].is_real_constant():
-            l: Union[int, Fraction] = cast(Fraction, args[0].constant_value())
-            r: Union[int, Fraction] = cast(Union[int, Fraction], args[1].constant_value())
-            return self.manager.Real(l**r)
-
-        if args[0].is_int_constant():
-            l = cast(int, args[0].constant_value())
-            r = cast(int, args[1].constant_value())
-            return self.manager.Int(l**r)
-
         if args[0].is_algebraic_constant():
             from pysmt.constants import Numeral
             l = cast(Numeral, args[0].constant_value())
